@@ -39,6 +39,32 @@ def run(ck, facts, tier):
         if ti.startswith("std::cmp::PartialOrd::") and ti != "std::cmp::PartialOrd::partial_cmp" and any(n in (r.get("self_ty") or "") for n in NUMS):
             ck.fail(r1, short(r["fn"]), "PartialOrd::%s overridden: comparison operators no longer follow partial_cmp" % ti.rsplit("::", 1)[-1], "%s:%d" % (r["file"], r["line"]))
 
+    # ---- R19.1b comparisons on the Number container, per kind case
+    from rules import c18
+    r1b = ck.rule("R19.1b", "comparisons involving the Number container: for every non-mixed kind case the result is f64::partial_cmp(lhs value, rhs value) in operand order", floor=13)
+    for r in facts.all_fns():
+        if r.get("trait_item") != "std::cmp::PartialOrd::partial_cmp":
+            continue
+        tys = [c01.base(t) for t in r["sig"]]
+        if c18.NUM not in tys or not all(t in (c18.NUM, "f64") for t in tys):
+            continue
+        where = "%s:%d" % (r["file"], r["line"])
+        for kl in (c18.KINDS if tys[0] == c18.NUM else ("F64",)):
+            for kr in (c18.KINDS if tys[1] == c18.NUM else ("F64",)):
+                if {kl, kr} == {"Dual", "Dual2"}:
+                    continue
+                a = c18.number(kl, "u") if tys[0] == c18.NUM else Poly.atom("u")
+                b = c18.number(kr, "v") if tys[1] == c18.NUM else Poly.atom("v")
+                val = lambda k, n: Poly.atom(n) if k == "F64" else Poly.atom(n + ".real")
+                key = "%s[%s,%s]" % (short(r["fn"]), kl, kr)
+                try:
+                    got = ev.apply_fn(r["fn"], [a, b], 0)
+                except Unsupported as e:
+                    ck.fail(r1b, key, "rule could not be established (%s)" % e, where)
+                    continue
+                ck.check(r1b, key, isinstance(got, Sym) and got.tag == ("partial_cmp", val(kl, "u").key(), val(kr, "v").key()),
+                         "Number comparison for (%s,%s) is not f64::partial_cmp(lhs value, rhs value): %r" % (kl, kr, got), where, sample="partial_cmp(u, v) on the values")
+
     # ---- R19.2 abs
     r2 = ck.rule("R19.2", "abs: on the branch value > 0 (or >= 0) every field is unchanged; on the other branch value, gradient (and Hessian) are all negated", floor=2)
     for num in NUMS:
